@@ -96,3 +96,15 @@ LEVEL_TEXT = ("Proof (partial where stated): an executable relational model of t
 LEVEL_NOTE = ("Refinement to the documented data model: ONE theorem over in-contract histories for all 31 ops (C04_refines_hist, see PARTIAL), checked three-way (documented model = store model = library) on every generated in-contract history; both findings of this property (F30, F34) are repaired in /repo. Trusted: Lean kernel, the schema translator, SQLite's enforcement of the schema, "
               "the executor/generator/oracle.")
 TECHNIQUE = "Lean 4 proof (invariant by induction over API histories) about an executable relational model tied to the sources by translated schema facts and differential execution"
+
+# ---- group gX: lenient creations; the parser's calls as in-contract histories ----
+PARTIAL += [
+    "group gX — Store.Op.mkBlock / mkFrame carry the `lenient` argument of cif_create_block_internal / cif_container_create_frame_internal "
+    "(validity check skipped, normalisation and duplicate test unchanged); step, specStep (specCreateBlock / specCreateFrameH with the flag), "
+    "inContract, C04_refines / C04_wok_step / C04_inv_step cover both forms (Lemmas/StoreSpecRefine createBlock_specL / createFrame_specL); "
+    "families store / storecontract generate lenient creations with valid, invalid and duplicate codes (NAME token suffix /L; executor: the "
+    "_internal functions with lenient = 1).  `interleaved with parsing`: the store calls of EVERY parse into a new CIF are an in-contract history "
+    "(C03_parse_is_store_history, Props/C03Store.lean), so C04_refines_from_start and every theorem about in-contract histories apply to "
+    "what the parser built; pre-existing targets: as represented worlds (C03_parser_store_refines_from_rep), otherwise executed (family "
+    "parse, sto=ok).",
+]
